@@ -223,15 +223,22 @@ def scen_predicate(ctx, M):
     pieces = []
     ops = []
     text = ''
+    concrete = ctx.p.get('concrete_ops')
     for i in range(k):
         key = ctx.int('key_%d' % i)
         table['P%d' % i] = (key, 0)
-        w1 = ctx.str('w1_%d' % i, ctx.choice('nw1_%d' % i, [0, 1]), WS)
-        oplen = ctx.choice('oplen_%d' % i, [1, 2])
-        op = ctx.str('op_%d' % i, oplen, OPC)
-        w2 = ctx.str('w2_%d' % i, ctx.choice('nw2_%d' % i, [0, 1]), WS)
-        w3 = ctx.str('w3_%d' % i, ctx.choice('nw3_%d' % i, [0, 1]), WS)
-        piece = cat(w1, op, w2, 'P%d' % i, w3)
+        if concrete:
+            # operators as concrete text (implementations may key tables
+            # by them); repeated operators included
+            op = ctx.choice('opc_%d' % i, OPS)
+            piece = op + ctx.choice('sp_%d' % i, ['', ' ']) + 'P%d' % i
+        else:
+            w1 = ctx.str('w1_%d' % i, ctx.choice('nw1_%d' % i, [0, 1]), WS)
+            oplen = ctx.choice('oplen_%d' % i, [1, 2])
+            op = ctx.str('op_%d' % i, oplen, OPC)
+            w2 = ctx.str('w2_%d' % i, ctx.choice('nw2_%d' % i, [0, 1]), WS)
+            w3 = ctx.str('w3_%d' % i, ctx.choice('nw3_%d' % i, [0, 1]), WS)
+            piece = cat(w1, op, w2, 'P%d' % i, w3)
         ops.append(op)
         if i:
             sep = ctx.choice('sep_%d' % i, [',', ' ', ''])
@@ -267,6 +274,8 @@ def scen_predicate(ctx, M):
             if len(o) == len(op) and ctx.truth(op == o):
                 hit = o
         known.append(hit)
+    if concrete:
+        ctx.goal('malformed')        # (not exercised by this variant)
     wellformed = wellformed and all(x is not None for x in known)
     # with a missing separator the version token of the previous piece
     # swallows the next piece ("P0>=" ...): still malformed unless the
